@@ -28,6 +28,10 @@ def configs(tier, seed):
   for i, (cr, up) in enumerate(wl):
     for shut in ([None, 4] if tier == 'quick' else [None, 1, 4, 1000]):
       cfgs.append(dict(name='writer/c%s/u%s/s%s' % (cr, up, shut), mode='writer', creates=cr, updates=up, shutdown=shut))
+  # a bounded cache under flow control and a sender that overloads it: the cache-full / space-available events fire again
+  # and again while the writer works under its limits
+  for (cr, up, full) in ([('inf', 5, 30), (60, 20, 100)] if tier == 'quick' else [('inf', 5, 30), (60, 20, 100), ('inf', 1, 10), ('inf', 50, 400), (30, 'inf', 50)]):
+    cfgs.append(dict(name='writer/c%s/u%s/full%d' % (cr, up, full), mode='writer', creates=cr, updates=up, shutdown=None, full=full))
   # the limit change at shutdown comes from the reactor thread while the writer thread is inside the bucket
   for (up, shut) in ((5, 1), (8, 2), (12, 3), (3, 50)):          # the last one raises the limits at shutdown (the documented use)
     for st in (('sorted',) if tier == 'quick' else ('sorted', 'max')):
@@ -142,6 +146,8 @@ def run_writer(cfg, res):
   conf = {'MAX_CREATES_PER_MINUTE': cfg['creates'], 'MAX_UPDATES_PER_SECOND': cfg['updates'], 'CACHE_WRITE_STRATEGY': 'sorted'}
   if cfg['shutdown'] is not None:
     conf['MAX_UPDATES_PER_SECOND_ON_SHUTDOWN'] = cfg['shutdown']
+  if cfg.get('full'):
+    conf.update({'MAX_CACHE_SIZE': cfg['full'], 'USE_FLOW_CONTROL': True})
   ns = boot.boot('carbon-cache', conf)
   import carbon.util as util
   import carbon.writer as writer
@@ -149,7 +155,31 @@ def run_writer(cfg, res):
   from carbon import state
   vt = sched.VTime()
   util.time = vt.time
-  util.sleep = vt.sleep
+  sender = dict(budget=0, n=0, cache=None, busy=False)
+
+  def deliver(_ent=None):
+    # the sender's side of flow control: a chunk already read is delivered whole, the pause is honoured at chunk boundaries
+    if sender['busy'] or sender['budget'] <= 0 or sender['cache'] is None or state.cacheTooFull:
+      return
+    sender['busy'] = True
+    try:
+      for _ in range(sender['chunk']):
+        sender['n'] += 1
+        sender['budget'] -= 1
+        sender['cache'].store('load%d' % (sender['n'] % sender['series']), (int(vt.time()) - 3 + sender['n'] % 3, 1.0))
+      res.count('overload_chunks_delivered')
+    finally:
+      sender['busy'] = False
+
+  def vsleep(d):
+    vt.sleep(d)
+    deliver()
+  util.sleep = vsleep
+  if cfg.get('full'):
+    memdb.ON_CALL[0] = deliver
+    from carbon import events
+    events.cacheFull.addHandler(lambda: res.count('cache_full_events_under_overload'))
+    events.cacheSpaceAvailable.addHandler(lambda: res.count('cache_space_events_under_overload'))
   writer.time = vt
   cc.time = vt
   memdb.CLOCK[0] = vt.time
@@ -176,6 +206,9 @@ def run_writer(cfg, res):
     mcount = 0
     nrounds = r.randint(2, 8)
     fam = r.choice([0, 0, 1, 2])
+    if cfg.get('full'):
+      state.cacheTooFull = False
+      sender.update(budget=r.choice([100, 300, 600]), cache=cache, chunk=r.choice([3, 8, 20]), series=r.choice([5, 40, 200]), n=0)
     # a persistent backend condition for some of the rounds: the disk is full (every create raises) or some files are
     # damaged (every write to them raises); attempts count as operations performed on the backend
     sick = None
